@@ -113,4 +113,122 @@ theorem isPrimeB_trial_exact (bases : List Nat) (x : Int)
       · omega
       · omega
 
+/-! ### linear searches -/
+
+theorem searchUp_spec (isP : Int → Bool) (step : Int) (fuel : Nat) (c : Int)
+    (h : ∃ j, j < fuel ∧ isP (c + step * j) = true) :
+    ∃ j, j < fuel ∧ searchUp isP step fuel c = .ok (c + step * j) ∧ isP (c + step * j) = true ∧
+      ∀ i, i < j → isP (c + step * i) = false := by
+  induction fuel generalizing c with
+  | zero => obtain ⟨j, hj, _⟩ := h; omega
+  | succ f ih =>
+    simp only [searchUp]
+    by_cases h0 : isP c = true
+    · exact ⟨0, by omega, by simp [h0], by simpa using h0, by intro i hi; omega⟩
+    · obtain ⟨j, hj, hP⟩ := h
+      rcases Nat.eq_zero_or_pos j with hj0 | hj0
+      · subst hj0; simp at hP; exact absurd hP h0
+      · have : ∃ j', j' < f ∧ isP (c + step + step * j') = true := by
+          refine ⟨j - 1, by omega, ?_⟩
+          have : c + step + step * ((j - 1 : Nat) : Int) = c + step * (j : Int) := by
+            rw [Nat.cast_sub hj0]; push_cast; ring
+          rw [this]; exact hP
+        obtain ⟨j', hj', h1, h2, h3⟩ := ih (c + step) this
+        refine ⟨j' + 1, by omega, ?_, ?_, ?_⟩
+        · rw [if_neg h0, h1]; congr 1; push_cast; ring
+        · have : c + step * ((j' + 1 : Nat) : Int) = c + step + step * (j' : Int) := by push_cast; ring
+          rw [this]; exact h2
+        · intro i hi
+          rcases Nat.eq_zero_or_pos i with hi0 | hi0
+          · subst hi0; simpa using h0
+          · have := h3 (i - 1) (by omega)
+            have e : c + step + step * ((i - 1 : Nat) : Int) = c + step * (i : Int) := by
+              rw [Nat.cast_sub hi0]; push_cast; ring
+            rwa [e] at this
+
+theorem searchDown_eq (isP : Int → Bool) (fuel : Nat) (c : Int) :
+    searchDown isP fuel c = searchUp isP (-2) fuel c := by
+  induction fuel generalizing c with
+  | zero => rfl
+  | succ f ih => simp only [searchDown, searchUp, ih]; rfl
+
+/-- a primality oracle that is correct on every integer -/
+def CorrectOracle (isP : Int → Bool) : Prop := ∀ y : Int, isP y = true ↔ Nat.Prime y.toNat
+
+theorem nextPrime_spec (isP : Int → Bool) (hP : CorrectOracle isP) (x : Int) :
+    ∃ p : Int, nextPrime isP x = .ok p ∧ Nat.Prime p.toNat ∧ x < p ∧
+      ∀ q : Int, Nat.Prime q.toNat → x < q → p ≤ q := by
+  unfold nextPrime
+  by_cases hx : x ≤ 1
+  · rw [if_pos hx]
+    refine ⟨2, rfl, Nat.prime_two, by omega, fun q hq _ => ?_⟩
+    have := hq.two_le; omega
+  · rw [if_neg hx]
+    have hx2 : 2 ≤ x := by omega
+    set c := x + (1 + x % 2) with hc
+    have hcodd : c % 2 = 1 := by omega
+    obtain ⟨q, hq, hq1, hq2⟩ := Nat.exists_prime_lt_and_le_two_mul x.toNat (by omega)
+    have hqodd : q % 2 = 1 := by
+      rcases hq.eq_two_or_odd with h | h
+      · omega
+      · exact h
+    have hqc : c ≤ (q : Int) := by omega
+    have hex : ∃ j, j < x.toNat + 2 ∧ isP (c + 2 * (j : Int)) = true := by
+      refine ⟨((q : Int) - c).toNat / 2, by omega, ?_⟩
+      have : c + 2 * ((((q : Int) - c).toNat / 2 : Nat) : Int) = (q : Int) := by omega
+      rw [this, hP]; simpa using hq
+    obtain ⟨j, hj, h1, h2, h3⟩ := searchUp_spec isP 2 _ c hex
+    refine ⟨c + 2 * j, h1, (hP _).mp h2, by omega, fun q' hq' hxq' => ?_⟩
+    by_contra hlt
+    have hq'2 := hq'.two_le
+    have hq'odd : q'.toNat % 2 = 1 := by
+      rcases hq'.eq_two_or_odd with h | h
+      · omega
+      · exact h
+    have := h3 ((q' - c).toNat / 2) (by omega)
+    have e : c + 2 * (((q' - c).toNat / 2 : Nat) : Int) = q' := by omega
+    rw [e] at this
+    have := (hP q').mpr hq'
+    simp_all
+
+theorem prevPrime_spec (isP : Int → Bool) (hP : CorrectOracle isP) (x : Int) :
+    (x < 3 → prevPrime isP x = .error .valueError) ∧
+    (3 ≤ x → ∃ p : Int, prevPrime isP x = .ok p ∧ Nat.Prime p.toNat ∧ p < x ∧
+      ∀ q : Int, Nat.Prime q.toNat → q < x → q ≤ p) := by
+  unfold prevPrime
+  constructor
+  · intro h; rw [if_pos h]
+  · intro h
+    rw [if_neg (by omega)]
+    by_cases h3 : x = 3
+    · rw [if_pos h3]
+      refine ⟨2, rfl, Nat.prime_two, by omega, fun q hq hq3 => ?_⟩
+      omega
+    · rw [if_neg h3, searchDown_eq]
+      set c := x - (1 + x % 2) with hc
+      have hc3 : 3 ≤ c := by omega
+      have hcodd : c % 2 = 1 := by omega
+      have hex : ∃ j, j < x.toNat ∧ isP (c + (-2) * (j : Int)) = true := by
+        refine ⟨(c - 3).toNat / 2, by omega, ?_⟩
+        have : c + (-2) * (((c - 3).toNat / 2 : Nat) : Int) = 3 := by omega
+        rw [this, hP]; exact Nat.prime_three
+      obtain ⟨j, hj, h1, h2, h3'⟩ := searchUp_spec isP (-2) _ c hex
+      have hj3 : 3 ≤ c + (-2) * (j : Int) := by
+        by_contra hlt
+        have := h3' ((c - 3).toNat / 2) (by omega)
+        have e : c + (-2) * (((c - 3).toNat / 2 : Nat) : Int) = 3 := by omega
+        rw [e] at this
+        have h33 : isP 3 = true := by rw [hP]; exact Nat.prime_three
+        simp_all
+      refine ⟨c + (-2) * j, h1, (hP _).mp h2, by omega, fun q hq hqx => ?_⟩
+      by_contra hlt
+      have hq2 := hq.two_le
+      rcases hq.eq_two_or_odd with h | h
+      · omega
+      · have := h3' ((c - q).toNat / 2) (by omega)
+        have e : c + (-2) * (((c - q).toNat / 2 : Nat) : Int) = q := by omega
+        rw [e] at this
+        have := (hP q).mpr hq
+        simp_all
+
 end MpycV.NumTh
